@@ -116,6 +116,37 @@ type lightClient struct {
 	proof  u.Proof
 	hashes []Hash
 	calls  int
+	// what the last update handed to Proof.Update: another wallet can be fed the very same slices and
+	// the very same UpdateData value (follow)
+	lastAdd []Hash
+	lastTgt []uint64
+	lastUD  u.UpdateData
+}
+
+// follow updates this client's cached proof with the block data and the UpdateData that ANOTHER
+// client has just used (one node serving several wallets): whatever Proof.Update did to them in the
+// first wallet's call shows in this wallet's proof.
+func (lc *lightClient) follow(src *lightClient, rem []int) error {
+	r32 := make([]uint32, len(rem))
+	for i, r := range rem {
+		r32[i] = uint32(r)
+	}
+	ud := src.lastUD
+	if src.calls%2 == 0 {
+		// every other block the UpdateData is rebuilt from its exported fields ("all the data needed"), as a
+		// client that received it over the wire holds it: fresh slices, nothing unexported carried along
+		ud = u.UpdateData{
+			ToDestroy:     cloneU64(src.lastUD.ToDestroy),
+			PrevNumLeaves: src.lastUD.PrevNumLeaves,
+			NewDelHash:    cloneHashes(src.lastUD.NewDelHash),
+			NewDelPos:     cloneU64(src.lastUD.NewDelPos),
+			NewAddHash:    cloneHashes(src.lastUD.NewAddHash),
+			NewAddPos:     cloneU64(src.lastUD.NewAddPos),
+		}
+	}
+	var err error
+	lc.hashes, err = lc.proof.Update(lc.hashes, src.lastAdd, src.lastTgt, r32, ud)
+	return err
 }
 
 // update feeds one block to the stump and the cached proof. The block data is laid out differently
@@ -137,6 +168,7 @@ func (lc *lightClient) update(delH []Hash, blockProof u.Proof, addH []Hash, rem 
 	for i, r := range rem {
 		r32[i] = uint32(r)
 	}
+	lc.lastAdd, lc.lastTgt, lc.lastUD = aArg, pArg.Targets, ud
 	lc.hashes, err = lc.proof.Update(lc.hashes, aArg, pArg.Targets, r32, ud)
 	return err
 }
